@@ -102,6 +102,8 @@ func runC16(c *Ctx) {
 
 	checkAccessorAgreement(c, "ck", "LastDistributionTransmissionKey", "ParametersKey")
 	checkSetterValues(c, "ck", []string{"LastTransmissionBlockHeight"})
+	checkParamGetters(c, "ck", "GetBlocksPerDistributionTransmission", "GetConsumerRedistributionFrac", "GetDistributionTransmissionChannel", "GetProviderFeePoolAddrStr", "GetRewardDenoms", "GetProviderRewardDenoms", "GetTransferTimeoutPeriod")
+	checkParamGetters(c, "pk", "GetNumberOfEpochsToStartReceivingRewards")
 
 	// ---- R4 ------------------------------------------------------------------------------------
 	c.Rule("R4", "provider crediting: the middleware writes an allocation only when the transfer ack is a success and the receiver is the rewards pool; the consumer credited is the one named by the reward memo or identified from the packet's client; the credit is the stored allocation plus exactly the packet's denom/amount", 6)
